@@ -543,11 +543,12 @@ size_t ZSTD_getFrameHeader_advanced(ZSTD_frameHeader* zfhPtr, const void* src, s
             case 0 : if (singleSegment) frameContentSize = ip[pos]; break;
             case 1 : frameContentSize = MEM_readLE16(ip+pos)+256; break;
             case 2 : frameContentSize = MEM_readLE32(ip+pos); break;
-            case 3 : frameContentSize = MEM_readLE64(ip+pos); break;
+            case 3 : frameContentSize = MEM_readLE64(ip+pos);
+                     /* the two largest values are the library's own "unknown" / "error" sentinels : a header that spells
+                      * one of them would switch the content size verification off */
+                     RETURN_ERROR_IF(frameContentSize >= ZSTD_CONTENTSIZE_ERROR, frameParameter_unsupported, "content size field holds a reserved value");
+                     break;
         }
-        /* the two largest values are the library's own "unknown" / "error" sentinels : a header that spells one of them
-         * would switch the content size verification off */
-        RETURN_ERROR_IF(frameContentSize >= ZSTD_CONTENTSIZE_ERROR, frameParameter_unsupported, "content size field holds a reserved value");
         if (singleSegment) windowSize = frameContentSize;
 
         zfhPtr->frameType = ZSTD_frame;
